@@ -195,7 +195,8 @@ Proof.
   { rewrite t_holds_mk, Z.eqb_refl. destruct (o_kind o); cbn; congruence. }
   pose proof (filter_one _ _ _ _ Ni Hh) as H1. fold (cnt (o_tract o) (lock_mode (o_kind o)) ths) in H1.
   revert H1. unfold unlock, busy_ok, cnt in *.
-  destruct (get (o_tract o) (g_busy g)) as [st|]; destruct (lock_mode (o_kind o)); intro H1; dmh; try congruence; exfalso; lia.
+  destruct (get (o_tract o) (g_busy g)) as [st|]; destruct (lock_mode (o_kind o)); intro H1; dmh; try congruence; exfalso; try lia.
+  Show.
 Qed.
 
 Definition no_crash (s : sys) : Prop := forall i t, nth_error (snd s) i = Some t -> t_pc t <> PCrash.
